@@ -443,8 +443,6 @@ public:
               const linear_expression_t &e1,
               const linear_expression_t &e2) override {
     if (!is_bottom()) {
-      m_packs.forget(lhs);
-
       variable_vector_t vars;
       size_t num_vars =
           std::distance(cond.variables().begin(), cond.variables().end()) +
@@ -452,10 +450,15 @@ public:
           std::distance(e2.variables_begin(), e2.variables_end());
       vars.reserve(num_vars + 1);
 
-      vars.push_back(lhs);
       vars.insert(vars.end(), cond.variables().begin(), cond.variables().end());
       vars.insert(vars.end(), e1.variables_begin(), e1.variables_end());
       vars.insert(vars.end(), e2.variables_begin(), e2.variables_end());
+      // lhs can only be forgotten beforehand if its old value is not
+      // read by the condition or the operands (as in weak_assign)
+      if (std::find(vars.begin(), vars.end(), lhs) == vars.end()) {
+	m_packs.forget(lhs);
+	vars.push_back(lhs);
+      }
 
       if (std::shared_ptr<base_domain_t> absval = merge(vars)) {
         absval->select(lhs, cond, e1, e2);
